@@ -809,6 +809,33 @@ func sysChild(phase string) {
 	}
 	out.Sync = canon(sq, m["agg"])
 	out.Writes = writes
+	if queued && phase == "resume" && out.Async == out.Sync {
+		// the OTHER persisted search (req0, loaded from its own .info file at the same start-up) is resumed too: it must
+		// run with its own fractions and parameters, whatever else was loaded next to it
+		p0 := params
+		p0.From, p0.To, p0.AggQ = 0, seq.MID(1<<62), nil
+		var r0 fracmanager.FetchSearchResultResponse
+		ok0 := false
+		d0 := time.Now().Add(8 * time.Second)
+		for {
+			r0, ok0 = as.FetchSearchResult(fracmanager.FetchSearchResultRequest{ID: "req0"})
+			if !ok0 || r0.Done || time.Now().After(d0) {
+				break
+			}
+			time.Sleep(2 * time.Millisecond)
+		}
+		if ok0 && r0.Done {
+			ast0, err := parser.ParseSeqQL(seq.TokenAll+":*", seq.TestMapping)
+			if err == nil {
+				p0.AST = ast0.Root
+				if s0, err := fracmanager.NewSearcher(4, fracmanager.SearcherCfg{}).SearchDocs(context.Background(), fracsAtStart, p0); err == nil {
+					if a, b := canon(&r0.QPR, "none"), canon(s0, "none"); a != b {
+						out.Async, out.Sync = "req0(the other persisted search): "+a, "req0(the other persisted search): "+b
+					}
+				}
+			}
+		}
+	}
 	emit()
 }
 
@@ -1278,6 +1305,10 @@ func genSys(g gen, o vh.Opts) []string {
 // known-defect witnesses (DESIGN section 7 row 11 and the interval-1 fold), always run
 func witnessLines() []string {
 	return []string{
+		// two searches persisted at the restart: req0 over three fractions, req1 (narrow window, one aggregation) over
+		// the two newest only; both are loaded from their .info files and resumed - each with its own fractions
+		"async docs=1:0:a:1:0:0,2:0:b:2:0:0,10:0:a:3:0:0,11:0:b:4:0:0,20:0:a:5:0:0,21:0:b:6:0:0 layout=0,1;2,3;4,5 lastActive=1 late=- queued=1 q=* desc=1 hi=0 agg=count from=10 to=30 crash=1 at=written",
+		"async docs=1:0:a:1:0:0,2:0:b:2:0:0,10:0:a:3:0:0,11:0:b:4:0:0,20:0:a:5:0:0,21:0:b:6:0:0 layout=0,1;2,3;4,5 lastActive=0 late=- queued=1 q=* desc=0 hi=7 agg=pods from=0 to=5 crash=1 at=written",
 		// two documents 1e308 in one fraction, sum aggregation: Sum = +Inf, json.Marshal fails inside processFrac
 		"async docs=5:0:a:1e308,6:0:a:1e308 layout=0,1 lastActive=0 q=* desc=1 hi=0 agg=sum from=0 to=100000 crash=0 at=written",
 		// the same document in two fractions, no histogram requested: FetchSearchResult writes to a nil map
